@@ -9,12 +9,13 @@
 (*   h      the definition history (operations of ShellState)              *)
 (*   orig   the state observed after running h in a shell started in the   *)
 (*          base state (ok: the snapshot was taken and the run completed)  *)
-(*   fresh  one observation per printer and way of evaluating              *)
-(*          {kind, mode, ok, same, vars, al, fn, opts, traps, mask}:       *)
+(*   fresh  observations {kind, mode, ok, vars, al, fn, opts, traps, mask}, *)
+(*          one per printer (kind) and way of evaluating (mode):           *)
 (*          the state of a FRESH shell (started in the base state) after   *)
 (*          it evaluated the printout; only the component the printer is   *)
-(*          about is filled in.  same = the printout was, byte for byte,   *)
-(*          the one of the base shell, whose observation is in Rec[1].     *)
+(*          about is filled in.  A (kind, mode) pair that is absent means  *)
+(*          the printout was, byte for byte, that of the base shell, whose *)
+(*          observation is in Rec[1].                                      *)
 (* Verdicts (one JSON line per failure, validation goes on):               *)
 (*   model:<component>  orig is not the state ApplyAll predicts for h      *)
 (*   listing            the fresh shell's projection for that printer      *)
@@ -50,13 +51,19 @@ ModelWhy(r, pred) ==
   ELSE IF o.mask # pred.mask THEN "model:mask"
   ELSE ""
 
-ObsOK(r, pred, ob) ==
-  LET o == IF ob.same THEN BaseObs(ob.kind, ob.mode) ELSE ob
+BaseModes == {o.mode : o \in SetOf(Rec[1].fresh)}
+ObsFor(r, kind, mode) ==
+  IF \E o \in SetOf(r.fresh) : o.kind = kind /\ o.mode = mode
+  THEN CHOOSE o \in SetOf(r.fresh) : o.kind = kind /\ o.mode = mode
+  ELSE BaseObs(kind, mode)
+
+ObsOK(r, pred, kind, mode) ==
+  LET o == ObsFor(r, kind, mode)
       s == StateOf(o) IN
   /\ o.ok
-  /\ IF ob.kind = "functions"
+  /\ IF kind = "functions"
      THEN Names(s.fn) = Names(pred.fn) /\ (r.ok => s.fn = SetOf(r.orig.fn))
-     ELSE Proj(ob.kind, s) = Proj(ob.kind, pred)
+     ELSE Proj(kind, s) = Proj(kind, pred)
 
 Judge(i) ==
   LET r == Rec[i] IN
@@ -64,11 +71,9 @@ Judge(i) ==
   ELSE LET pred == ApplyAll(BaseState, r.h)
            y == ModelWhy(r, pred) IN
        /\ IF y = "" THEN TRUE ELSE PrintT(ToJson([bad |-> i, why |-> y, kind |-> "", mode |-> ""]))
-       /\ \A k \in DOMAIN r.fresh :
-            IF ObsOK(r, pred, r.fresh[k]) THEN TRUE
-            ELSE PrintT(ToJson([bad |-> i, why |-> "listing", kind |-> r.fresh[k].kind, mode |-> r.fresh[k].mode]))
-       /\ IF Len(r.fresh) \in {Cardinality(Kinds), 2 * Cardinality(Kinds)} THEN TRUE
-          ELSE PrintT(ToJson([bad |-> i, why |-> "model:run", kind |-> "", mode |-> "incomplete"]))
+       /\ \A kind \in Kinds : \A mode \in BaseModes :
+            IF ObsOK(r, pred, kind, mode) THEN TRUE
+            ELSE PrintT(ToJson([bad |-> i, why |-> "listing", kind |-> kind, mode |-> mode]))
 
 (* the base shell's own printouts recreate the base state *)
 JudgeBase ==
